@@ -60,6 +60,30 @@ class Constant(Family):
             ctx.claim("constant:at-data-returns-data", ctx.same(out2[i], ys[i]), {"i": i})
 
 
+class ConstantIntegerGrid(Family):
+    name = "constant-method-integer-typed-grid"
+    doc = "'constant' on an integer-typed new grid (np.arange / lists of ints) with symbolic real values"
+
+    def configs(self, tier):
+        return [{"x": [0, 2, 3, 7], "q": [-1, 0, 1, 2, 5, 7, 9], "left": lf} for lf in (False, True)] + \
+               [{"x": [-3, -1, 4], "q": [-3, -1, 4], "left": False}, {"x": [1, 2], "q": [0, 1, 1, 2, 3], "left": True}]
+
+    def run(self, ctx, inst, x, q, left):
+        from traffic_weaver import process
+        ys = ctx.reals("y", len(x))
+        kw = {}
+        lv = ys[0]
+        if left:
+            lv = ctx.real("left")
+            kw["left"] = lv
+        xa, qa = np.array(x, dtype=np.int64), np.array(q, dtype=np.int64)
+        out = process.interpolate(xa, arr(ctx, ys), qa, method="constant", **kw)
+        ctx.note("out", out)
+        ctx.claim("constant:length", len(out) == len(q))
+        for j, qq in enumerate(q):
+            ctx.claim("constant:last-sample-at-or-before", ctx.eq(out[j], o_last_at_or_before(x, ys, qq, lv)), {"j": j, "q": qq})
+
+
 class Linear(Family):
     name = "linear-method"
     doc = "'linear' (numpy.interp, modelled by its documented definition): neighbours' straight line, data at data, affine reproduced"
@@ -236,4 +260,4 @@ if __name__ == "__main__":
     ap = argparse.ArgumentParser()
     ap.add_argument("--tier", default="quick")
     a = ap.parse_args()
-    sys.exit(run_check("C13", "interpolation", [Constant(), Linear(), SplineRoles(), WeaverGrid(), WeaverGridOtherRange()], a.tier, META))
+    sys.exit(run_check("C13", "interpolation", [Constant(), ConstantIntegerGrid(), Linear(), SplineRoles(), WeaverGrid(), WeaverGridOtherRange()], a.tier, META))
